@@ -161,7 +161,7 @@ PROPS["C11"] = dict(
     level_note=_HASH_NOTE,
     groups=[
         K("core", ["c11::"], functions=["hash::gnu_hash", "GnuHashTable::{new,find}", "ParsingTable<u32/u64/Symbol>::get", "StringTable::get_raw"], bounds="see level_note; quick: ELF32 LE soundness 32-byte table; lean completeness/absent harnesses: nbucket=1, nbloom=1, two hashed symbols with symbolic 2-byte names (full non-NUL alphabet), shift 0..31 symbolic", timeout_s=1200, jobs=8),
-        K("core", ["c11t::"], tier="thorough", functions=["same"], bounds="both classes, BE, nbucket<=3, nbloom<=2, NS<=3, names<=16 for the hash function", timeout_s=3000),
+        K("core", ["c11t::"], tier="thorough", functions=["same"], bounds="both classes, BE, nbucket<=3, nbloom<=2, NS<=3, names<=16 for the hash function", timeout_s=3000, jobs=3),
     ],
     assumptions=["hashed symbols are sorted by bucket (format requirement) — assumed on the symbolic names", "on corrupted tables find may return Err; soundness constrains only Ok(Some(_))"],
 )
@@ -172,7 +172,7 @@ PROPS["C12"] = dict(
     level_note=_HASH_NOTE,
     groups=[
         K("core", ["c12::"], functions=["hash::sysv_hash", "SysVHashTable::{new,find}", "ParsingTable<u32/Symbol>::get", "StringTable::get_raw"], bounds="see level_note; quick: ELF32 LE soundness 28-byte table; lean completeness/absent harnesses: nbucket=2, two hashed symbols with symbolic 2-byte names, absent query of 1..2 bytes (prefix case included)", timeout_s=1200, jobs=8),
-        K("core", ["c12t::"], tier="thorough", functions=["same"], bounds="both classes, nbucket<=3, NS<=3, names<=16 for the hash function", timeout_s=3000),
+        K("core", ["c12t::"], tier="thorough", functions=["same"], bounds="both classes, nbucket<=3, NS<=3, names<=16 for the hash function", timeout_s=3000, jobs=3),
     ],
     assumptions=["on corrupted tables find may return Err; soundness constrains only Ok(Some(_))"],
 )
@@ -185,7 +185,7 @@ PROPS["C03"] = dict(
                "Thorough: string-table and note views hand out pointers inside the same range. String-table entries and note name/desc pointers on arbitrary bytes are C15/C14.",
     level_note="Bound: file length 128 bytes (contents constant: which bytes are returned does not depend on their values; decoding of values is C02/C09); header arguments unconstrained. usize = 64 bit.",
     groups=[
-        K("core", ["c03::"], functions=["ElfBytes::minimal_parse (constant file)", "ElfBytes::section_data", "ElfBytes::segment_data", "SectionHeader::get_data_range", "ProgramHeader::get_file_data_range", "ReadBytesExt::get_bytes", "CompressionHeader::parse_at"],
+        K("core", ["c03::", "c15::get_raw_b8"], functions=["StringTable::get_raw (8 symbolic bytes, any offset: the returned slice points at table+offset and ends before the first NUL)", "ElfBytes::minimal_parse (constant file)", "ElfBytes::section_data", "ElfBytes::segment_data", "SectionHeader::get_data_range", "ProgramHeader::get_file_data_range", "ReadBytesExt::get_bytes", "CompressionHeader::parse_at"],
           bounds="file = constant 128-byte ELF64-LE / ELF32-BE image; SectionHeader/ProgramHeader argument fully symbolic", timeout_s=600),
         K("core", ["c03t::"], tier="thorough", functions=["ElfBytes::section_data_as_strtab", "section_data_as_notes", "segment_data_as_notes", "StringTable::get_raw", "NoteIterator::next"], bounds="same files; first item / any get_raw offset", timeout_s=3000),
     ],
@@ -274,12 +274,17 @@ PROPS["C18"] = dict(
     technique="bounded model checking (Kani/CBMC, SAT): differential of the same accessor on a file and on its prefix with a fully symbolic header argument; stream side by engine B (z3)",
     level_text="For a 128-byte file and each enumerated proper prefix (quick: 64, 65, 100, 127 of 128 and 90 of 128 ELF32-BE; thorough: every cut point at once as a symbolic length) the solver decides for ALL header values that "
                "section_data / segment_data (thorough: string-table and note views) on the prefix return Err or exactly the full file's answer (same file offset, length, compression header). Read the other way this is the appended-bytes clause. "
-               "Stream parser: engine B decides that load_bytes on a fault-free stream returns Ok iff range_end <= stream length (so a shorter stream can only turn answers into errors).",
-    level_note="Bound: file 128 bytes (contents constant; the ranges are what is symbolic), prefixes enumerated in the quick tier. Header-table location under truncation follows from C05's Ok-iff-fits characterisation. usize = 64 bit.",
+               "Stream parser: engine B decides that load_bytes on a fault-free stream returns Ok iff range_end <= stream length (so a shorter stream can only turn answers into errors). "
+               "Engine B, lemma Lprefix: the MIR of minimal_parse, of the header-argument accessors and of the table-driven accessors is executed twice, on a file of symbolic length file_len and on its prefix of symbolic length "
+               "prefix_len <= file_len with the same contents at common positions; z3 decides for every jointly satisfiable path pair that an Ok answer on the prefix implies the same Ok answer (same file ranges, same decoded header fields) on the complete file.",
+    level_note="Bound (Kani part): file 128 bytes (contents constant; the ranges are what is symbolic), prefixes enumerated in the quick tier. Lprefix has no file-size bound; its table-driven accessors run on section/program header tables of 1..2 entries. usize = 64 bit.",
     groups=[
         K("core", ["c18::"], functions=["ElfBytes::minimal_parse", "ElfBytes::section_data", "ElfBytes::segment_data", "get_data_range", "get_file_data_range", "ReadBytesExt::get_bytes"],
           bounds="full file 128 bytes constant, prefixes {64,65,100,127} (ELF64-LE) and {90} (ELF32-BE) constant; header argument fully symbolic", timeout_s=900),
-        M(["L1"], ["C18."], bounds="all u64 ranges, stream length symbolic"),
+        M(["L1", "Lprefixquick"], ["C18.", "Lprefix."], bounds="L1: all u64 ranges, stream length symbolic. Lprefix: two executions of the same MIR body sharing the content function file_uW_at(pos), lengths prefix_len <= file_len both symbolic u64 (no size bound): "
+          "minimal_parse (both classes, all header fields symbolic); section_data / section_data_as_strtab/rels/relas/notes / segment_data / segment_data_as_notes with a fully symbolic header argument (ELF64); "
+          "symbol_table, dynamic_symbol_table, dynamic (via .dynamic and via PT_DYNAMIC), section_headers_with_strtab, section_header_by_name on section/program tables of 1..2 entries with every header field symbolic (ELF64; both tables fit in the prefix)"),
+        M(["Lprefix", "Lprefix32"], ["C18.", "Lprefix."], tier="thorough", timeout_s=3600, bounds="as quick plus symbol_version_table and find_common_data (ELF64, 1..2-entry tables), and the quick set for ELF32"),
         K("core", ["c18t::"], tier="thorough", functions=["same + section_data_as_strtab/get_raw"], bounds="cut point symbolic 0..127", timeout_s=3000, jobs=4),
     ],
     assumptions=MIRSYM_ASSUME[:3],
